@@ -95,6 +95,12 @@ def run(ctx):
             loopvars = set()
             ok = not stale and free <= {tuning, 'self', cat, ids_p} | set(nested)
             why = 'closure %s reads %s%s' % (a.id, sorted(free), ' and overwritten field(s) %s' % [norm(x) for x in stale] if stale else '')
+        elif isinstance(a, ast.Lambda):
+            bound = {x.arg for x in ast.walk(a.args) if isinstance(x, ast.arg)}
+            free = {x.id for x in ast.walk(a.body) if isinstance(x, ast.Name)} - bound
+            stale = reads_overwritten(a)
+            ok = not stale and free <= {tuning, 'self', cat, ids_p} | set(nested)
+            why = 'lambda reads %s%s' % (sorted(free), ' and overwritten field(s) %s' % [norm(x) for x in stale] if stale else '')
         elif isinstance(a, ast.Name) and a.id in locals_assigned:
             # ids iterator
             def leaves(v):
